@@ -159,7 +159,7 @@ pub fn check(a: &Analysis, _aux: &mut Aux, t: &mut Tally) -> Vec<Violation> {
             } {
                 t.any("stun-change-port-request-with-trailing-bytes");
             } else if rs != qd
-                && s.tcp.as_ref().map(|ti| matches!(ti.data, Some(crate::model::DataVerdict::Unknown) | Some(crate::model::DataVerdict::Collision)) || a.dirty_flows.contains(&ti.flow)).unwrap_or(false)
+                && s.tcp.as_ref().map(|ti| matches!(ti.data, Some(crate::model::DataVerdict::Unknown) | Some(crate::model::DataVerdict::Collision) | Some(crate::model::DataVerdict::CollisionValidated)) || a.dirty_flows.contains(&ti.flow)).unwrap_or(false)
             {
                 // the flow's earlier bytes are not known to the model (cookie never observed in this
                 // history): whether a STUN change-port request was completed here cannot be told
